@@ -143,8 +143,13 @@ func mergeDefaults(c *Client) {
 	if c.Backoff.Multiplier < 1 {
 		c.Backoff.Multiplier = DefaultClient.Backoff.Multiplier
 	}
+	// -1 is documented as "no randomization" and must survive the defaulting below.
+	noJitter := c.Backoff.Jitter == -1
 	if c.Backoff.Jitter <= 0 || c.Backoff.Jitter >= 1 {
 		c.Backoff.Jitter = DefaultClient.Backoff.Jitter
+	}
+	if noJitter {
+		c.Backoff.Jitter = -1
 	}
 	if c.ResponseValidator == nil {
 		c.ResponseValidator = DefaultClient.ResponseValidator
